@@ -1,26 +1,20 @@
 #!/bin/bash
-# dev tool: mutrun.sh <patch.diff|-e 'sed expr' file> PROP N [tier]  -- run a property against a mutated scratch copy of /repo
-set -e
+# dev tool: run a check against a mutated scratch copy of /repo (never touches /repo or /verif/evidence)
+#   mutrun.sh -e 'sed expr' file PROP [check args...]
+#   mutrun.sh patch.diff PROP [check args...]
 export GOFLAGS=-mod=mod GOPROXY=off GOSUMDB=off GOTOOLCHAIN=local
 D=$(mktemp -d /tmp/mut.XXXXXX)
 trap 'rm -rf $D' EXIT
 rsync -a --exclude .git /repo/ $D/repo/
-if [ "$1" = "-e" ]; then sed -i "$2" $D/repo/$3; (cd /repo && diff -u $3 $D/repo/$3 | head -20 || true); shift 3; else (cd $D/repo && patch -p1 -s < $1); shift; fi
+if [ "$1" = "-e" ]; then sed -i "$2" $D/repo/$3; (cd /repo && diff -u $3 $D/repo/$3 | head -30); shift 3; else (cd $D/repo && patch -p1 -s < $1) || exit 2; shift; fi
 (cd $D/repo && go1.26.8 build ./... ) || { echo "mutant does not compile"; exit 2; }
-cd /verif/sim
-sed "s#=> /repo#=> $D/repo#" go.mod > $D/go.mod; cp go.sum $D/go.sum
-go1.26.8 test -modfile=$D/go.mod -c -o $D/worker ./worker/
-cd $D && echo "{\"op\":\"range\",\"prop\":\"$1\",\"tier\":\"${3:-quick}\",\"base\":1,\"from\":0,\"stride\":1,\"max\":$2,\"samples\":0}" | VERIF_OUT=$D/w.out ./worker -test.run='^TestWorker$' -test.timeout=0 2>&1 | grep -v "^\s" | head -20
-grep '"violation"' w.out | python3 -c "
-import sys,json,collections
-n=0; c=collections.Counter()
-for l in sys.stdin:
-    d=json.loads(l)['result']; n+=1; c[d['oracle']+':'+d['sig']]+=1
-    if n<=3: print(d['oracle'], d['msg'][:500])
-print('violations', n, dict(c))
-"
-grep aggregate w.out | python3 -c "
-import sys,json
-for l in sys.stdin:
-    d=json.loads(l); print('runs',d['runs'],'harness',d['harness'],d.get('harness_msg',''))
-"
+PROP=$1; shift
+VERIF_REPO=$D/repo VERIF_OUTDIR=$D/out /verif/check $PROP "$@"
+rc=$?
+for f in $D/out/replays/$PROP/*.json; do [ -f "$f" ] && python3 - "$f" <<'P'
+import json,sys
+d=json.load(open(sys.argv[1]))
+print('--- replay', d['build'], d['oracle'], d['sig'], 'shrunk', d['shrink_steps']); print(d['message'][:800]); print(json.dumps(d['scenario'])[:600])
+P
+done
+echo "exit $rc"
